@@ -289,6 +289,7 @@ func normalise(repo string, pkgs []*packages.Package) (*normResult, []*packages.
 		return res, pkgs, nil
 	}
 	var roundKeys []string
+	deferredClosure := map[string]int{}
 	var snapshot map[string][]byte
 	// a step after which the program no longer type-checks is taken back and its subject left alone:
 	// normalisation must never be the reason a tree cannot be analysed
@@ -354,6 +355,11 @@ func normalise(repo string, pkgs []*packages.Package) (*normResult, []*packages.
 				}
 				out, what, err := closureStep(cv, content)
 				if err != nil {
+					if err.Error() == "used as a value" && deferredClosure[closureKey(cv)] < 3 {
+						// it may be handed to a helper that is inlined in a later round (the use then becomes a call)
+						deferredClosure[closureKey(cv)]++
+						continue
+					}
 					skip[closureKey(cv)] = true
 					res.Log = append(res.Log, fmt.Sprintf("local closure %s in %s left alone: %v", cv.obj.Name(), cv.encl, err))
 					continue
